@@ -129,3 +129,12 @@ Proof.
   unfold full_span. destruct (p_operand p) as [o|]; [|assumption].
   unfold within in *. cbn [merge lo hi]. lia.
 Qed.
+
+(* every identifier of an expression is looked up -- also in an operand that cannot influence the result *)
+Theorem undefined_anywhere : forall e p, mentions p e -> In p (tracked e).
+Proof.
+  induction e as [|q|i IH|args|l IHl r IHr]; intros p H; cbn [mentions tracked] in *; try contradiction.
+  - left. exact H.
+  - apply IH. exact H.
+  - apply in_or_app. destruct H as [H|H]; [left; apply IHl; exact H|right; apply IHr; exact H].
+Qed.
